@@ -34,7 +34,7 @@ def svd_cases(draw, tier):
         kind = "zero"
     R = draw(st.integers(1, k))
     # overall magnitude: the property is scale free, absolute thresholds in the code are not
-    e = draw(st.sampled_from([0, 0, 0, 0, -20, -13, -8, 8, 13]))
+    e = draw(st.sampled_from([0, 0, 0, 0, -20, -13, -8, 8, 13, -100, 100]))
     return {"A": np.ascontiguousarray(A * 10.0 ** e), "kind": kind, "R": R, "scale_exp": e}
 
 
